@@ -30,6 +30,7 @@ const (
 	KIface              // Go-side non-error interface wrapping a dynamic value
 	KReal               // spec-only: SMT Real
 	KFP                 // spec-only: SMT FloatingPoint value
+	KArr                // spec-only: SMT (Array Int Int) (a row of bytes)
 )
 
 type IntRange struct {
@@ -313,6 +314,11 @@ func (ss *Sorts) rangeFact(t types.Type, term, top string) string {
 		w, _ := isFloat(t)
 		return fmt.Sprintf("(and (<= 0 %s) (< %s %s))", term, term, pow2(w))
 	case KSlice:
+		if el := elemOfSliceType(t); el != nil {
+			if sz := sizeofType(el); sz > 1 {
+				return fmt.Sprintf("(and (slice_ok %s %s) (<= (* (s_cap %s) %d) 140737488355328))", term, top, term, sz)
+			}
+		}
 		return fmt.Sprintf("(slice_ok %s %s)", term, top)
 	case KPtr:
 		return fmt.Sprintf("(and (<= 0 %s) (<= %s %s))", term, term, top)
